@@ -526,7 +526,14 @@ pub fn c20_child() {
         "z".repeat(70000),
     ];
     for c in all_codes() {
-        for m in msgs.iter() {
+        // messages that begin with the code's OWN name: glued to text, followed by a blank, with a doubled separator
+        let own = format!("{:?}", c);
+        let mut ms: Vec<String> = msgs.clone();
+        ms.push(format!("{}s are reported here", own));
+        ms.push(format!("{} while reading", own));
+        ms.push(format!("{}: : doubled", own));
+        ms.push(own.clone());
+        for m in ms.iter() {
             let s = Status::new(c.clone(), m);
             let d1 = format!("{}", s);
             let d2 = s.to_string();
